@@ -101,6 +101,13 @@ def run(ctx: core.Ctx) -> core.Report:
     combos = [(mt, rc) for mt in gen.MSG_TYPES for rc in gen.RET_CODES]
     nA = ctx.n(1500, 30000)
     nbig = ctx.n(6, 60)
+    # every small payload length with every small suffix length: a slip that concerns ONE particular length (a fast path for
+    # "exactly n bytes left", an off-by-8 in one branch) must not depend on the draw of the random lengths below
+    for pl in range(0, 41):
+        for sl in range(0, 21):
+            h = gen_header(rng)
+            h["payload"] = gen.rbytes(rng, pl)
+            cases.append(("A", (h, gen.rbytes(rng, sl))))
     for i in range(nA):
         h = gen_header(rng, big=(i < nbig))
         if i < len(combos):
